@@ -91,7 +91,7 @@ impl Monitor for C09 {
         "C09"
     }
     fn gens(&self, tier: Tier) -> Vec<(&'static str, u64)> {
-        vec![("trainings", tier.pick(1200, 30_000))]
+        vec![("trainings", tier.pick(6000, 120_000))]
     }
     fn rule(&self) -> &'static str {
         "case = random layer sequence (dense / convolution / deconvolution / max-pool / feedback block, 0..4 dense layers at varying positions, dense output layer) with dropout (rate from {0.1,0.5,0.9,1.0}) on a random non-empty subset of the dropout-capable layers, 4..12 training and 1..70 validation samples, 1..4 epochs, batch 1..5, SGD; with and (every 4th case) without validation data. (1) hooked state: every forward pass of a validation sample inside learn() must see all training flags false, every forward pass of a training sample all flags of dropout-capable layers true, flags all false after learn() returns and before/during/after stand-alone validate()/predict(). (2) differential: a twin network without dropout receives the trained weights; the validation loss/accuracy learn() reported for its last epoch must equal validate() on the twin bit-for-bit, predict() must agree on probe inputs, and this is repeated for every prefix e <= E by deterministic re-training (prefix losses must coincide). (3) validate() right after learn() equals the last reported epoch. A case is non-trivial when the fixed-seed mask really changes the training forward pass (checked by comparing a training-mode forward with the twin). Distinct = distinct configuration descriptors."
